@@ -1,22 +1,29 @@
 /-
-  Sem/Errors.lean — executable model of typedpy's error reporting for *flat* classes (fields are
-  scalars or collections of scalars):
+  Sem/Errors.lean — executable model of typedpy's error reporting: classes whose fields are
+  scalars, nested structures (class references, inline StructureReference) and collections of
+  these at ANY nesting depth, through the constructor and through deserialization:
 
   (a) message shapes (`typedpy/fields/*.py`, `structures.py`, `commons.py`):
         `<path>: Got <v>; <problem>`      (`gotFirst`: Number, String, Enum, Sized, type/unique/length
                                             checks of Array/Deque/Set/Tuple)
         `<path>: <problem>; Got <v>`      (`gotLast`: TypedField/Boolean type check, `validate_size`)
         `<path>: <problem>`               (`plain`: Map "Expected a dict")
-      `<path>` = top-level field name + element suffix (`_<index>`, `_key`, `_value`, none for Set);
+      `<path>` = top-level field name + ONE element suffix per nesting level (`_<index>`, `_key`,
+      `_value`, none for Set): `locate`, structural recursion over the declaration tree;
+      deserialization: accept / reject from `deser` (Sem/Deser.lean), the guaranteed beginning of
+      every message from the wrapper rules (`dHead`); class names typedpy derives (`derivedName`);
       `Structure.__init__` prefixes `<Class>.` (fail-fast) and `raise_errs_if_needed` renders the
       collected list through `json.dumps`;
   (b) the three regexes of `typedpy/errors.py` as explicit matchers over `List Char`, and the
       control flow of `standard_readable_error_for_typedpy_exception` (fail-fast / collect-all,
       JSON list decoding, nested expansion, the one place where it can raise).
       Since /repo 4d96101 the three message regexes are compiled with `re.DOTALL` (`.` matches a
-      newline, so `(.*)$` takes the whole rest) and their field group is `[\w.]+`; `\w` of a `str`
-      pattern is `str.isalnum()` or `_`, supplied as the oracle `W` (only its ASCII part and
-      `W ':' = false` are ever assumed).  `_expected_class_pattern` is NOT DOTALL.
+      newline, so `(.*)$` takes the whole rest); since /repo 18c6055 their field group is
+      `(?:[\w.]|[^\x00-\x7f\s])+`: ASCII letters, digits, `_`, `.`, and EVERY non-ASCII character that
+      is not white space (`pyFieldWord`, fully modelled — before, `\w` = `str.isalnum()` or `_` was an
+      oracle and identifiers with combining marks / vowel signs lost their field).  Theorems stay
+      parametric in `W` (only its ASCII part and `W ':' = false` are ever assumed).
+      `_expected_class_pattern` is NOT DOTALL.
       Since /repo 9c7ef9a no check of a flat field raises a foreign exception without a path.
 
   Texts are `List Char` (Python `str` = sequence of code points).  Value and problem *texts* are
@@ -117,6 +124,10 @@ def isPySpace (c : Char) : Bool :=
   (9 ≤ n && n ≤ 13) || (28 ≤ n && n ≤ 32) || n == 0x85 || n == 0xA0 || n == 0x1680
   || (0x2000 ≤ n && n ≤ 0x200A) || n == 0x2028 || n == 0x2029 || n == 0x202F || n == 0x205F
   || n == 0x3000
+
+/-- the field group of errors.py since /repo 18c6055, without `_` and `.` (added by `isFieldChar`):
+    ASCII letters and digits, and every non-ASCII character that is not white space -/
+def pyFieldWord : Word := fun c => c.isAlphanum || (decide (c.toNat > 127) && !isPySpace c)
 
 /-- regex 1 after `<field>: `: `Got ([^;]*); (.*)$` (DOTALL) ↦ (value, problem) -/
 def m1tail (rest : Text) : Option (Text × Text) :=
@@ -412,13 +423,23 @@ def locate (O : Oracles) : FieldDecl → PyVal → Loc
   -- ClassReference: `Expected <Structure: …>; Got <v>`; inline StructureReference (since /repo 3e97bbb):
   -- `<name>: <the embedded class's own message>` resp. `<name>: Expected a dictionary or Structure; got <v>`
   | .struct c _ _, _ => if c.inline then { shape := .plain } else { shape := .gotLast }
-  | .anyOf _, _ => {}
-  | .oneOf _, _ => {}
-  | .allOf _, _ => {}
+  -- AnyOf / OneOf: `<name>: <v> of type T did not match any field option. …` resp. (OneOf matching
+  -- twice) `<name>: : Got <v>; Matched more than one field option`: the field's own path, then text
+  | .anyOf _, _ => { shape := .plain }
+  | .oneOf _, _ => { shape := .plain }
+  -- AllOf hands its own name to every option: the first rejecting option raises ITS message
+  | .allOf fs, v => locateAll O fs v
+  -- NotField: `<name>: Got <v>; Expected not to match any field definition`
   | .notF _, _ => {}
   | .noneF, _ => {}
   | .anything, _ => {}
 termination_by structural f _ => f
+
+/-- AllOf: the location reported by the first option that rejects `v` -/
+def locateAll (O : Oracles) : List FieldDecl → PyVal → Loc
+  | [], _ => {}
+  | f :: fs, v => if isOk (validate O f v) then locateAll O fs v else locate O f v
+termination_by structural fs _ => fs
 
 /-- positional items: the first rejected element `i`, located by ITS field under `_<i>` -/
 def locateZip (O : Oracles) : Nat → List FieldDecl → List PyVal → Option Loc
@@ -455,6 +476,12 @@ def isPathDecl : FieldDecl → Bool
   | .tuplePos fs _ => allPathDecl fs
   | .mapOf kf vf _ => isPathDecl kf && isPathDecl vf
   | .struct _ _ _ => true
+  -- multi-field wrappers: AnyOf / OneOf / NotField reject at the field itself (any options), AllOf
+  -- through its first rejecting option
+  | .anyOf _ => true
+  | .oneOf _ => true
+  | .notF _ => true
+  | .allOf fs => allPathDecl fs
   | _ => false
 termination_by structural f => f
 def allPathDecl : List FieldDecl → Bool
